@@ -60,6 +60,10 @@ def run(chk, repo: Repo):
     _r3(chk, repo)
     _r4(chk, repo, dist)
     _r5(chk, repo, samplers)
+    chk.rule("C05-R6", "lazy caches of the distribution layer are reset by every writer of the fields they were computed from "
+                       "(a sampler must not use a structure flag / factor cached for an earlier parameter value)", floor=2)
+    from ..cachecoh import cache_coherence
+    cache_coherence(chk, repo, "C05-R6", ("cuqi/distribution/", "cuqi/implicitprior/", "cuqi/density/"))
 
 
 def _draw_sites(fn):
